@@ -385,6 +385,10 @@ def run(rep):
     codepage_rule(rep, f)
     utf8_rule(rep, f)
     registry_rule(rep, f)
+    from ..engines import diag
+    lf = core.library_facts()
+    diag.run(rep, lf, "C05")
+    rep.units.update(os.path.relpath(t, core.REPO) for t in lf.tus)
     rep.undecided += ["the decoding/encoding code itself (second-byte ranges for E0/ED/F0/F4 leads, surrogate pairing, "
                       "block-boundary deferral, UTF-16/UCS-4 loops, ICU converters, BOM/declaration reconciliation): value-level, not applicable"]
     rep.assumptions += ["reference code pages: python's cp037/cp1140/cp1252 codecs (independent of the repository)",
